@@ -48,6 +48,10 @@ def shards(tier):
         # the system's own (top level) driver is the gated one and there is no other domain
         for e in ('input', 'wide'):
             out.append({'block': b, 'place': 'top', 'en': e, 'domains': 1})
+        out.append({'block': b, 'place': 'topmutate', 'en': 'input', 'domains': 1})
+        # a monitor-style leaf (inputs only) inside the gated hierarchy
+        for p in ('parent', 'grand'):
+            out.append({'block': b, 'place': p, 'en': 'input', 'domains': 1, 'probe': 1})
         # the enable is computed by combinational cells that live inside the hierarchy they gate
         for p in ('parent', 'grand'):
             out.append({'block': b, 'place': p, 'en': 'inner', 'domains': 1})
@@ -66,6 +70,23 @@ def shards(tier):
 
 def cost(d):
     return d['domains'] * {'SyncMem': 30, 'Stack': 10, 'DelayLine2': 10}.get(d['block'], 1)
+
+
+class ForeignEnable(Exception):
+    pass
+
+
+class Probe(Logic):
+    """a user-written sequential block with inputs only (a monitor): it is gated like any other block of its domain"""
+    def __init__(self, parent, name, d):
+        super().__init__(parent, name)
+        self.d = self.addIn('d', d)
+        self.seen = 0
+        self.tick = 0
+
+    def clock(self):
+        self.seen = self.d.get()
+        self.tick ^= 1
 
 
 def inst_block(parent, name, kind, free, tag):
@@ -133,6 +154,8 @@ def build(d, gated):
         else:
             dut, q = inst_block(g1, 'dut', d['block'], free, tag + 'dut')
             sib, qs = inst_block(g2, 'sib', d['block'], free, tag + 'sib')
+        if d.get('probe'):
+            Probe(g1, 'probe', q)
         # enable source
         en = hw.wire(tag + '_en', 2 if d['en'] == 'wide' else 1)
         if d['en'] in ('input', 'wide'):
@@ -153,10 +176,13 @@ def build(d, gated):
             py4hw.Reg(holder, tag + '_enreg', x, en)
         drv = py4hw.ClockDriver('gclk' if d.get('samename') else tag + '_clk', base=hw.clockDriver, enable=en)
         target = {'self': dut, 'parent': g1, 'grand': g2, 'nested': dut, 'nestedbase': dut,
-                  'selfsib_a': dut, 'selfsib_b': dut, 'top': hw}[d['place']]
+                  'selfsib_a': dut, 'selfsib_b': dut, 'top': hw, 'topmutate': hw}[d['place']]
         if gated:
             if d.get('late'):
                 c.late = getattr(c, 'late', []) + [(target, drv)]
+            elif d['place'] == 'topmutate':
+                # the system's own default driver object gets the enable (instead of being replaced by a new driver)
+                hw.clockDriver.enable = en
             else:
                 target.clockDriver = drv
         c.enables[tag] = en
@@ -240,6 +266,9 @@ def run_shard(d):
         held = set()
         for leaf in c.seq_leaves:
             drv = ref_domain(leaf)
+            if drv.enable is not None and id(drv.enable) not in en_val:
+                # the enable of this leaf's driver is a wire of ANOTHER system: the driver object is shared between systems
+                raise ForeignEnable(leaf.getFullPath(), drv.name, drv.enable.getFullPath())
             if drv.enable is not None and en_val[id(drv.enable)] == 0:
                 held.add(id(leaf))
         for i, w in enumerate(wires):
@@ -264,7 +293,13 @@ def run_shard(d):
             c.seq_leaves = [l for l in c.sys.allLeaves() if l.isClockable()]
         pre = st.snapshot()
         c.problem = None
-        exp = expected(c, pre, x)
+        try:
+            exp = expected(c, pre, x)
+        except ForeignEnable as e:
+            c.problem = {'sigkey': 'gating', 'problem': 'a block of this system is gated by a wire of another system of the process '
+                                                        '("blocks in other clock domains are unaffected")',
+                         'leaf': e.args[0], 'driver': e.args[1], 'enable_wire': e.args[2]}
+            return
         drvs = list(c.sim.clockDrivers.items())
         first = None
         for perm in itertools.permutations(range(len(drvs))):
